@@ -211,10 +211,14 @@ func (c *Conversation) processDHCommit(msg []byte) error {
 		return err
 	}
 
-	c.ake.encryptedGx = dhCommitMsg.encryptedGx
-	c.ake.xhashedGx = dhCommitMsg.yhashedGx
+	c.storeDHCommit(dhCommitMsg)
 
 	return err
+}
+
+func (c *Conversation) storeDHCommit(dhCommitMsg dhCommit) {
+	c.ake.encryptedGx = dhCommitMsg.encryptedGx
+	c.ake.xhashedGx = dhCommitMsg.yhashedGx
 }
 
 // processDHKey = bob = x
